@@ -380,7 +380,7 @@ func newWorld(a, b string) *world {
 }
 
 func sortedNames() []string {
-	n := dpt.ListSupportedTypes()
+	n := append([]string(nil), dpt.ListSupportedTypes()...) // never sort the library's own slice
 	sort.Strings(n)
 	return n
 }
@@ -392,6 +392,7 @@ func sortedNames() []string {
 // freeRun lets `goroutines` goroutines run every program on every pair (name, next name) `rounds`
 // times, free-running, and compares each observation with the reference taken alone beforehand.
 func freeRun(goroutines, rounds int) (runs int64, diffs []string) {
+	diffs = coldStart(goroutines)
 	names := sortedNames()
 	var worlds []*world
 	for i, a := range names {
@@ -441,5 +442,42 @@ func freeRun(goroutines, rounds int) (runs int64, diffs []string) {
 		}
 	}
 	sort.Strings(diffs)
+	return
+}
+
+// coldStart is the first thing a free-running process does with the package: all goroutines list,
+// produce and pack at once, before anything else has touched the registry, so that a lazily built
+// registry is built concurrently (visible to the race detector, or as a crash, or as goroutines
+// that see different lists).
+func coldStart(goroutines int) (diffs []string) {
+	var wg sync.WaitGroup
+	start := make(chan struct{})
+	sums := make([]uint64, goroutines)
+	for g := 0; g < goroutines; g++ {
+		wg.Add(1)
+		go func(g int) {
+			defer wg.Done()
+			<-start
+			var t thread
+			w := &world{}
+			names := dpt.ListSupportedTypes()
+			sums[g] = w.exec(&t, opList)
+			for _, n := range names {
+				if d, ok := dpt.Produce(n); ok && d != nil {
+					_ = d.Pack()
+				} else {
+					sums[g]++
+				}
+			}
+		}(g)
+	}
+	close(start)
+	wg.Wait()
+	for g := 1; g < goroutines; g++ {
+		if sums[g] != sums[0] {
+			diffs = append(diffs, fmt.Sprintf("list|cold start: goroutine %d and goroutine 0 see different name lists or cannot produce a listed name (%x / %x)", g, sums[g], sums[0]))
+			break
+		}
+	}
 	return
 }
